@@ -12,4 +12,9 @@ PM_Classes == [vec |-> <<"v1", "v1s", "v1ro">>, mat |-> <<"C", "F", "T", "S", "C
 PM_SweepLen == 2
 PM_SweepAll == FALSE
 PM_SweepRes == 0
+PM_Decls == <<"PSD", "none">>
+PM_Algebra == <<[name |-> "neg", arity |-> 1], [name |-> "sub", arity |-> 2]>>
+PM_AlgLen == 2
+PM_AlgAll == FALSE
+PM_AlgRes == 0
 ====
